@@ -1140,12 +1140,30 @@ def all_point_encodings_check(S, c, vk):
     for pe in ("raw", "uncompressed", "compressed", "hybrid"):
         s = vk.to_string(pe)
         S.probe("VerifyingKey.from_string", f, s, "same", "roundtrip point/%s (all encodings enabled)" % pe, c.name, same=vk)
+        def expect(b):
+            # the formats are told apart by length AND leading byte: X9.62 compressed = 02/03 + X, uncompressed = 04 + X + Y,
+            # hybrid = 06/07 + X + Y, raw = X + Y; any other leading byte for that length is no encoding at all
+            if len(b) == 2 * l:
+                return "any"
+            if len(b) == l + 1:
+                return "any" if b[0] in (2, 3) else "reject"
+            if len(b) == 2 * l + 1:
+                return "any" if b[0] in (4, 6, 7) else "reject"
+            return "reject"
         for k in range(len(s)):
-            S.probe("VerifyingKey.from_string", f, s[:k], "any" if k in lens else "reject",
+            S.probe("VerifyingKey.from_string", f, s[:k], expect(s[:k]),
                     "truncation to %d of %d bytes of point/%s" % (k, len(s), pe), c.name)
         for ext in (b"\x00", b"\x04" * 2, b"\x00" * l):
-            S.probe("VerifyingKey.from_string", f, s + ext, "any" if len(s) + len(ext) in lens else "reject",
+            S.probe("VerifyingKey.from_string", f, s + ext, expect(s + ext),
                     "extension by %d bytes of point/%s" % (len(ext), pe), c.name)
+        if pe != "raw":
+            # every other leading byte on the otherwise unchanged string
+            for tag in (0, 1, 2, 3, 4, 5, 6, 7, 8, 0x0A, 0x0B, 0x0E, 0x0F, 0x12, 0x42, 0x82, 0x83, 0x84, 0x86, 0xFF):
+                if tag != s[0]:
+                    m = bytes([tag]) + s[1:]
+                    same_family = (len(m) == l + 1 and tag in (2, 3)) or (len(m) == 2 * l + 1 and tag in (4, 6, 7))
+                    S.probe("VerifyingKey.from_string", f, m, "any" if same_family else "reject",
+                            "leading byte %02x on point/%s" % (tag, pe), c.name)
 
 
 REGRESSIONS = [
